@@ -75,6 +75,13 @@ def gen_inputs(ctx):
     for i in range(m // 2):
         t = conts[i % len(conts)]
         yield {"kind": "ctor", "t": t, "v": gen_value(rng, t, cap=5)}
+    # slice assignment of already hashed composite values (fresh views, or child views sliced out of another list)
+    for i in range(m // 3):
+        n = rng.choice([2, 3, 4, 5, 7, 8])
+        a = rng.randrange(0, n - 1)
+        b = rng.randrange(a + 1, n + 1)
+        yield {"kind": "sliceshare", "seq": rng.choice(["list", "vec"]), "n": n, "a": a, "b": b,
+               "from_other": rng.random() < 0.5, "fields": rng.choice([2, 3, 4]), "seed": rng.randrange(1 << 30)}
     # nested: mutations through child views and assignment of already hashed composite values
     for i in range(m):
         t = NESTED[i % len(NESTED)]
@@ -385,7 +392,51 @@ def build_ctor_case(inp):
     return cs
 
 
+def build_sliceshare_case(inp):
+    """model-free: `dst[a:b] = values` with already hashed composite values inserts the very node objects it was given
+    (no rebuild), and the next root hashes only the changed paths"""
+    import random as _r
+    why = None
+    try:
+        rr = _r.Random(inp["seed"])
+        et = ["cont", [["uint", 8]] * inp["fields"]]
+        n, a, b = inp["n"], inp["a"], inp["b"]
+        st = ["list", et, 8] if inp["seq"] == "list" else ["vec", et, n]
+        mk = lambda: [rr.randrange(1, 1 << 40) for _ in range(inp["fields"])]  # noqa
+        dst = to_py(st, [mk() for _ in range(n)])
+        dst.hash_tree_root()
+        if inp["from_other"]:
+            src = to_py(["list", et, 8], [mk() for _ in range(8)])
+            src.hash_tree_root()
+            vals = src[a:b]
+        else:
+            vals = [to_py(et, mk()) for _ in range(b - a)]
+            for x in vals:
+                x.hash_tree_root()
+        backs = [x.get_backing() for x in vals]
+        dst[a:b] = vals
+        depth = type(dst).tree_depth()
+        for k, nb in enumerate(backs):
+            got = dst.get_backing().getter((1 << depth) | (a + k)) if inp["seq"] == "vec" else \
+                dst.get_backing().getter((1 << depth) | (a + k))
+            if got is not nb and why is None:
+                why = "slice assignment: element %d was rebuilt instead of sharing the assigned (hashed) value's backing" % (a + k)
+        with Counter() as c:
+            dst.hash_tree_root()
+            bound = (b - a) * (depth + 1) + 2
+            if c.n > bound and why is None:
+                why = "root after a slice assignment of %d hashed values took %d hashes (bound %d)" % (b - a, c.n, bound)
+    except Exception as e:  # noqa
+        why = "slice-assignment sharing scenario raised %r" % (e,)
+    cs = Case(inp, "(R \"00\", false, (OpSummarize 1%N), (0%N, 0%N, 0%N))", [True, b"\x00", [], True, True, True, 0], NAMES,
+              nontrivial=True, kind="sliceshare")
+    cs.why = why
+    return cs
+
+
 def build(inp):
+    if inp["kind"] == "sliceshare":
+        return build_sliceshare_case(inp)
     if inp["kind"] == "ctor":
         return build_ctor_case(inp)
     if inp["kind"] == "nested":
